@@ -266,6 +266,16 @@ class Case:
     def fallback(self, kids):
         return E(1, "fallback", [], kids)
 
+    def nest(self, node, label):
+        """put `node` 0..4 ordinary elements deep (mixed with text): what is inside an xi:fallback stays inside it at
+        every depth"""
+        d = self.rng.choice([0, 1, 1, 2, 3, 4])
+        self.features.add("%s-depth-%d" % (label, d))
+        for k in range(d):
+            node = E(self.rng.choice([0, 0, 3]), self.rng.choice("pqs"), [],
+                     [("T", self.rnd_text())] * self.rng.randrange(0, 2) + [node] + [("T", "t")] * self.rng.randrange(0, 2))
+        return node
+
     def filler(self, base, depth):
         """random ordinary content (no includes)"""
         r = self.rng
@@ -427,7 +437,8 @@ def gen_case1(rng, kind):
                     def g(b, m=m, i=i):
                         k = c.filler(b, 2) + [("T", "fb")]
                         if edges[i] and rng.random() < 0.5:
-                            k.append(c.include(b, paths[rng.choice(edges[i])]))
+                            k.append(c.nest(c.include(b, rng.choice([paths[rng.choice(edges[i])], rng.choice(missing)])),
+                                            "include-in-used-fallback"))
                             c.features.add("include-in-used-fallback")
                         return c.include(b, m, kids=[("T", " "), c.fallback(k)])
                     gens.append(g)
@@ -436,18 +447,26 @@ def gen_case1(rng, kind):
                         m2 = rng.choice(missing)
                         inner_k = [("T", "in")] + c.filler(b, 2)
                         inner = c.include(b, m2, kids=[c.fallback(inner_k)] if rng.random() < 0.8 else [])
-                        return c.include(b, m, kids=[c.fallback([("T", "out"), inner, E(0, "z")])])
+                        return c.include(b, m, kids=[c.fallback([("T", "out"), c.nest(inner, "nested-fallback"), E(0, "z")])])
                     gens.append(g)
-        if kind == "unusedfb" or rng.random() < 0.08:
+        if kind == "unusedfb" or rng.random() < 0.15:
             # a fallback that is not used, with an include inside it (failing or not)
             if edges[i]:
                 tgt = paths[rng.choice(edges[i])]
                 inner_t = rng.choice([rng.choice(missing), tgt])
                 c.features.add("unused-fallback-with-include")
+                c.features.add("unused-fallback-inner-" + ("missing" if inner_t in missing else "resolvable"))
                 gens.append(lambda b, tgt=tgt, inner_t=inner_t: c.include(
-                    b, tgt, kids=[c.fallback([("T", "unused"), c.include(b, inner_t)])]))
+                    b, tgt, kids=[c.fallback([("T", "unused"), c.nest(c.include(b, inner_t), "include-in-unused-fallback")]
+                                             + ([c.nest(c.include(b, rng.choice(missing)), "include-in-unused-fallback")]
+                                                if rng.random() < 0.3 else []))]))
+                if tpaths and rng.random() < 0.4:
+                    # ... the same below a text inclusion that succeeds
+                    gens.append(lambda b, tp=tpaths[0]: c.text_include(
+                        b, tp, kids=[c.fallback([c.nest(c.include(b, rng.choice(missing)), "include-in-unused-fallback")])]))
         if kind == "invalid" and (i == 0 or rng.random() < 0.3):
-            style = rng.choice(["badparse", "xptext", "xpxml", "twofb", "orphan", "nohref", "incchild", "xichild"])
+            style = rng.choice(["badparse", "xptext", "xpxml", "twofb", "orphan", "nohref", "incchild", "xichild",
+                                "twofb-resolvable", "xichild-resolvable", "incchild-resolvable", "twofb-text-resolvable"])
             c.features.add("invalid-" + style)
             tgt = paths[edges[i][0]] if edges[i] else missing[0]
             tp = tpaths[0] if tpaths else missing[1]
@@ -459,6 +478,15 @@ def gen_case1(rng, kind):
                 gens.append(lambda b: c.include(b, tgt, "xml", [(0, "xpointer", "xpointer(/a)")]))
             elif style == "twofb":
                 gens.append(lambda b: c.include(b, missing[0], kids=[c.fallback([("T", "1")]), c.fallback([])]))
+            elif style == "twofb-resolvable":       # 3.1: an error whether or not the resource can be obtained
+                gens.append(lambda b: c.include(b, tgt, kids=[c.fallback([("T", "1")]), ("T", " "), c.fallback([])]))
+            elif style == "xichild-resolvable":
+                gens.append(lambda b: c.include(b, tgt, kids=[E(1, "other"), c.fallback([])]))
+            elif style == "incchild-resolvable":
+                gens.append(lambda b: c.include(b, tgt, kids=[c.include(b, missing[1]), c.fallback([])]))
+            elif style == "twofb-text-resolvable":
+                gens.append(lambda b: (c.text_include(b, tp, kids=[c.fallback([]), c.fallback([("T", "2")])]) if tpaths
+                                       else c.include(b, tgt, kids=[c.fallback([]), c.fallback([])])))
             elif style == "orphan":
                 gens.append(lambda b: c.fallback([("T", "orphan")]))
             elif style == "nohref":
@@ -526,7 +554,7 @@ def avoid_f3(nodes):
 ENC_TAG = {"utf-8": "8", "utf-16-le": "l", "utf-16-be": "b", "latin-1": "1"}
 
 
-def fs_token(c, for_spec=False):
+def fs_token(c, for_spec=False, light=False):
     """the abstract file system for bin/xm_C20 (paths as code points).  Text files: for the Spec the characters as python
     decodes the whole file (T...), for the model the raw bytes (B<enc>:hex), which it puts through the extracted
     read/transcode loop of doXIncludeTEXTFileDOM"""
@@ -534,7 +562,8 @@ def fs_token(c, for_spec=False):
     for p, nodes in c.docs.items():
         parts.append("%s=D%s" % (cps(p), ser_model(nodes)))
     for p, (s, label, codec, declare) in c.texts.items():
-        if for_spec:
+        if for_spec or (light and len(s) > 4096):
+            # (light: the large files go through the extracted read loop in one of the three requests of a case only)
             parts.append("%s=T%s" % (cps(p), cps(s.encode(codec).decode(codec))))
         else:
             parts.append("%s=B%s:%s" % (cps(p), ENC_TAG[codec], s.encode(codec).hex().upper()))
@@ -635,11 +664,18 @@ def spec_verdict(spec, ans):
         if want and not any(e.split("/")[0] in want for e in ans[0]) and not ans[1]:
             return False, "the Spec's error class %s is not among the reported codes %s" % (spec[6:], ans[0])
         return True, ""
-    if not spec.startswith("S ok D"):
+    ms = re.match(r"^S ok w=(\d+),(\d+) D(.*)$", spec)
+    if not ms:
         return False, "spec oracle failed: " + spec
-    want = spec[6:]
+    want = ms.group(3)
     if fatal(ans):
         return False, "legal inclusion reported as fatal error / exception: %s %s" % (ans[0], ans[1])
+    # the diagnostics of an accepted document are exactly the resource errors recovered through xi:fallback: nothing
+    # may be reported for content that is never processed (an unused xi:fallback)
+    wantd = sorted(["IncludeFailedResourceError/w"] * int(ms.group(1)) + ["CannotOpenFile/w"] * int(ms.group(2)))
+    if sorted(ans[0]) != wantd:
+        return False, ("diagnostics differ from the Spec: reported %s, specified: %d resource error(s) recovered by "
+                       "xi:fallback (%d of them for text inclusions)" % (sorted(ans[0]), int(ms.group(1)), int(ms.group(2))))
     got = RE_B.sub(" b=*", ans[2])
     if got == want:
         return True, ""
@@ -671,7 +707,7 @@ def flags_with(toggle):
     return "".join(sorted(set(CURRENT) ^ set(toggle)))
 
 
-CASE_KINDS = [("plain", 22), ("text", 10), ("missing", 12), ("clean-missing", 6), ("unusedfb", 6), ("invalid", 10),
+CASE_KINDS = [("plain", 22), ("text", 10), ("missing", 12), ("clean-missing", 6), ("unusedfb", 12), ("invalid", 10),
               ("rootinc", 16), ("bigtext", 4), ("rootbase", 5), ("cycle1", 5), ("cycle2", 5), ("cycle3", 4), ("cycle4", 3),
               ("cycle5", 3), ("mixed", 3)]
 
@@ -825,6 +861,7 @@ def _correspond(ctx, xm, xh, work, acc, chunk):
     if not ctx.replay and chunk == 0:
         literal_witnesses(ctx, xm, xh, work)
     tG = time.time()
+    light_tok = []
     cases = []           # (kind, case-dir, top, fstoken, files, features, relaxed)
     if ctx.replay:
         r = json.load(open(ctx.replay))
@@ -839,7 +876,16 @@ def _correspond(ctx, xm, xh, work, acc, chunk):
             for wk, wdocs in (("witness-F5", {"w/f0.xml": [E(1, "include", [(0, "href", "nope.xml")], [E(1, "fallback")])]}),
                               ("witness-F7", {"w/f0.xml": [E(0, "a", [], [E(1, "include", [(2, "base", "s/x.xml"),
                                                                                     (0, "href", "x.xml")], [])])],
-                                              "w/s/x.xml": [E(0, "x", [(0, "ref", "k")], [])]})):
+                                              "w/s/x.xml": [E(0, "x", [(0, "ref", "k")], [])]}),
+                              # an unused xi:fallback whose failing xi:include sits under ordinary elements: no diagnostics
+                              ("witness-lazy-fallback", {"w/f0.xml": [E(0, "r", [], [E(1, "include", [(0, "href", "ok.xml")], [
+                                  E(1, "fallback", [], [E(0, "p", [], [("T", "t"), E(0, "q", [], [
+                                      E(1, "include", [(0, "href", "missing.xml")], [])])])])])])],
+                                                         "w/ok.xml": [E(0, "k")]}),
+                              # two xi:fallback children are an error also when the resource can be obtained (3.1)
+                              ("witness-twofb-resolvable", {"w/f0.xml": [E(0, "r", [], [E(1, "include", [(0, "href", "ok.xml")], [
+                                  E(1, "fallback", [], [("T", "1")]), E(1, "fallback", [], [])])])],
+                                                            "w/ok.xml": [E(0, "k")]})):
                 c = Case(rng, wk)
                 c.docs = wdocs
                 c.top = "w/f0.xml"
@@ -849,6 +895,9 @@ def _correspond(ctx, xm, xh, work, acc, chunk):
             kind = kinds[i % len(kinds)] if i < 2 * len(kinds) else rng.choice(kinds)
             c = gen_case(rng, kind)
             cases.append((kind, "c%d/" % i, c.top, fs_token(c), file_bytes(c), c.features, fs_token(c, True)))
+            while len(light_tok) < len(cases) - 1:
+                light_tok.append(None)
+            light_tok.append(fs_token(c, light=True) if any(len(t[0]) > 4096 for t in c.texts.values()) else None)
         modes = ["x", "l", "d"]
     reqs = []
     tW = time.time()
@@ -862,7 +911,8 @@ def _correspond(ctx, xm, xh, work, acc, chunk):
                 # a plain file name with ':' is not a URI reference (XMLUri takes what precedes the colon for a scheme);
                 # such trees are only handed over as file: URLs
                 src = "u"
-            reqs.append((k, m, "c%d %s:%s %s %s %s %s" % (k, m, CURRENT, src, root, top, fstok)))
+            tok = fstok if (m == modes[0] or k >= len(light_tok) or light_tok[k] is None) else light_tok[k]
+            reqs.append((k, m, "c%d %s:%s %s %s %s %s" % (k, m, CURRENT, src, root, top, tok)))
     lines = [r[2] for r in reqs]
     tA = time.time()
     rc1, impl, err1 = run_harness(ctx, xh, lines)
